@@ -400,7 +400,7 @@ impl Prop for C18 {
     }
 
     fn run_wall_limit_s() -> u64 {
-        120
+        60
     }
 
     fn panics_are_violations() -> bool {
